@@ -1,0 +1,20 @@
+//go:build verif
+
+// Machine-checked contracts for package httperror (comment-only; see /verif/DESIGN.md).
+
+package httperror
+
+//@ func statusIsTemporary
+//@   property C15
+//@   ensures ret0 == (code == 500 || code == 502 || code == 503 || code == 504 || code == 507)
+//@   modifies nothing
+//@
+//@ func (ResponseError).Temporary
+//@   property C15
+//@   ensures ret0 == (e.StatusCode == 500 || e.StatusCode == 502 || e.StatusCode == 503 || e.StatusCode == 504 || e.StatusCode == 507)
+//@   modifies nothing
+//@
+//@ func Temporary
+//@   property C15
+//@   pure
+//@   ensures @nil_is_not_temporary err == nil ==> !ret0
